@@ -93,7 +93,7 @@ def resolve_faults(ctx):
     rng = ctx.rng('resolve-faults')
     for _ in range(ctx.budget(200, 4000)):
         c = gen_mol.cut_case(rng, nmax=8)
-        kind = rng.choice(['missing-fragment', 'atom-two-eq', 'atom-nonnumeric', 'atom-surplus'])
+        kind = rng.choice(['missing-fragment', 'missing-fragment-zero-edge', 'atom-two-eq', 'atom-nonnumeric', 'atom-surplus'])
         s = c['s']
         base, frags = s.split('}.', 1)
         if kind == 'missing-fragment':
@@ -103,6 +103,15 @@ def resolve_faults(ctx):
             victim = rng.choice(names)
             # the node keeps its bonds (order >= 1), only its name has no definition any more
             bad = base.replace('[#%s]' % victim, '[#NOFRAG]', 1) + '}.' + frags
+            want = 'syntax'
+        elif kind == 'missing-fragment-zero-edge':
+            # the fragment-less node has real bonds and, in addition, a zero-order ring bond to an extra unit
+            names = re.findall(r'\[#(F\d+)\]', base)
+            if len(names) < 2 or re.search(r'[9%|]', base):
+                continue
+            victim = rng.choice(names)
+            other = rng.choice(names)
+            bad = base.replace('[#%s]' % victim, '[#NOFRAG].9', 1) + '.[#%s]9' % other + '}.' + frags
             want = 'syntax'
         else:
             # turn one plain carbon of a fragment into an annotated bracket atom with a faulty annotation
@@ -145,7 +154,21 @@ def coarse_fragment_faults(ctx):
     """the same annotation faults on the nodes of a coarse fragment"""
     rng = ctx.rng('coarse-faults')
     for _ in range(ctx.budget(60, 1200)):
-        kind = rng.choice(['cg-two-eq', 'cg-nonnumeric-w', 'cg-nonnumeric-q', 'cg-surplus'])
+        kind = rng.choice(['cg-two-eq', 'cg-nonnumeric-w', 'cg-nonnumeric-q', 'cg-surplus', 'cg-dangling', 'cg-dangling'])
+        if kind == 'cg-dangling':
+            # a ring marker opened on a node of a coarse fragment and never closed: first / last node, digit / %nn,
+            # followed by a descriptor or by nothing
+            marker = rng.choice(['1', '7', '%12', '%10', '=3', '=%11'])
+            where = rng.randrange(3)
+            nodes = ['[#X]', '[#Y]', '[#Z]']
+            nodes[where] += marker
+            tail = rng.choice(['[$]', '', '[$]'])
+            n = rng.randint(1, 2)
+            s_ = '{' + '[#U]' * n + '}.{#U=[$]' + ''.join(nodes) + tail + '}'
+            case = {'kind': 'resolve-fault', 'fault': kind, 's': s_, 'all_atom': False}
+            steps = suites.run_resolve_case(ctx, 'fault-' + kind, case)
+            expect(ctx, case, outcome(ctx, case, steps), 'syntax', f'{kind} fault')
+            continue
         anno = {'cg-two-eq': rng.choice(['w=1=2', 'k=a=b', 'q=1=2']), 'cg-nonnumeric-w': rng.choice(['w=abc', 'w=1x']),
                 'cg-nonnumeric-q': rng.choice(['q=a', 'q=1x', 'q=']), 'cg-surplus': '1;0.5;extra'}[kind]
         n = rng.randint(1, 3)
